@@ -154,10 +154,14 @@ def cubic_spline(
     input_right_cumwidths = cumwidths.gather(-1, bin_idx + 1)[..., 0]
 
     if inverse:
-        # Modified coefficients for solving the cubic.
-        inputs_b_ = (inputs_b / inputs_a) / 3.0
-        inputs_c_ = (inputs_c / inputs_a) / 3.0
-        inputs_d_ = (inputs_d - inputs) / inputs_a
+        # Modified coefficients for solving the cubic. Segments that are (almost) quadratic are
+        # solved separately below; dividing by their vanishing cubic coefficient here would put
+        # inf / nan into the graph and make every gradient nan, although the values are discarded.
+        quadratic_mask = inputs_a.abs() < quadratic_threshold
+        safe_a = torch.where(quadratic_mask, torch.ones_like(inputs_a), inputs_a)
+        inputs_b_ = (inputs_b / safe_a) / 3.0
+        inputs_c_ = (inputs_c / safe_a) / 3.0
+        inputs_d_ = (inputs_d - inputs) / safe_a
 
         delta_1 = -inputs_b_.pow(2) + inputs_c_
         delta_2 = -inputs_c_ * inputs_b_ + inputs_d_
@@ -231,7 +235,6 @@ def cubic_spline(
 
         # Deal with a -> 0 (almost quadratic) cases.
 
-        quadratic_mask = inputs_a.abs() < quadratic_threshold
         a = inputs_b[quadratic_mask]
         b = inputs_c[quadratic_mask]
         c = inputs_d[quadratic_mask] - inputs[quadratic_mask]
